@@ -4,6 +4,8 @@
    The post-state is proved for plain tables (all areas memory-backed and default-loading); for tables with callback-backed, read-only
    or skip-defaults areas it is correspondence-tested only. *)
 From Ufw Require Import Base.Bits Model.RegTable Proof.RegLemmas Proof.RegInitLemmas Proof.RegInvariant Proof.RegMemory Proof.RegBlockInv Proof.RegInitInv Proof.RegInitZero Proof.RegLink.
+From Coq Require Import ZArith.
+From Ufw Require Import Base.Cexpr Gen.RegLeafGen Proof.RegLeafT.
 Local Open Scope N_scope.
 
 (* initialisation succeeds exactly when there is an area, the areas and the entries are each ordered and disjoint (every element starts at or behind the end of its predecessor), and the defaults load *)
@@ -13,7 +15,7 @@ Theorem C04_success_iff :
          fst (reg_init t) = (ISuccess, 0) <->
          areas_ordered t /\
          entries_ordered t /\
-         fst (load_defaults (S (length (t_entries t))) (with_flags (zero_mem_areas t0) true true) 0) = None.
+         fst (load_defaults (S (Datatypes.length (t_entries t))) (with_flags (zero_mem_areas t0) true true) 0) = None.
 Proof. exact (@init_success_iff). Qed.
 Print Assumptions C04_success_iff.
 
@@ -21,7 +23,7 @@ Print Assumptions C04_success_iff.
 Theorem C04_defaults_all_fit :
   forall (fuel : nat) (t : table) (i : N),
          fst (load_defaults fuel t i) = None ->
-         (length (t_entries t) <= N.to_nat i + fuel)%nat ->
+         (Datatypes.length (t_entries t) <= N.to_nat i + fuel)%nat ->
          forall (j : nat) (e : entry),
          (N.to_nat i <= j)%nat -> nth_error (t_entries t) j = Some e -> entry_fits t e = true.
 Proof. exact (@load_defaults_all_fit). Qed.
@@ -56,7 +58,9 @@ Theorem C04_first_error :
                  | None =>
                      fst (reg_init t) =
                      match
-                       fst (load_defaults (S (length (t_entries t))) (with_flags (zero_mem_areas t0) true true) 0)
+                       fst
+                         (load_defaults (S (Datatypes.length (t_entries t))) (with_flags (zero_mem_areas t0) true true)
+                            0)
                      with
                      | Some r => r
                      | None => (ISuccess, 0)
@@ -133,7 +137,7 @@ Theorem C04_post_state_area_fields :
          reg_init t = (ISuccess, 0, t') ->
          forall a' : area,
          In a' (t_areas t') ->
-         a_count a' = N.of_nat (length (filter (fun e : entry => addr_in_area a' (e_addr e)) (t_entries t'))) /\
+         a_count a' = N.of_nat (Datatypes.length (filter (fun e : entry => addr_in_area a' (e_addr e)) (t_entries t'))) /\
          (a_count a' <> 0 -> a_last a' + 1 = a_first a' + a_count a') /\
          (forall (j : nat) (e : entry),
           nth_error (t_entries t') j = Some e ->
@@ -149,13 +153,47 @@ Theorem C04_link_fields_spec :
          | e0 :: er => chain e_addr (fun e : entry => tsize (e_type e)) e0 er
          end ->
          let a' := link_area es a in
-         a_count a' = N.of_nat (length (filter (fun e : entry => addr_in_area a (e_addr e)) es)) /\
+         a_count a' = N.of_nat (Datatypes.length (filter (fun e : entry => addr_in_area a (e_addr e)) es)) /\
          (a_count a' <> 0 -> a_last a' + 1 = a_first a' + a_count a') /\
          (forall (j : nat) (e : entry),
           nth_error es j = Some e ->
           addr_in_area a (e_addr e) = true <-> a_count a' <> 0 /\ a_first a' <= N.of_nat j <= a_last a').
 Proof. exact (@link_area_spec). Qed.
 Print Assumptions C04_link_fields_spec.
+
+(* TRANSLATOR TIE (Gen/RegLeafGen.v is regenerated from src/registers/core.c on every check): the 32-bit membership test of the C code is the membership predicate of the model for every area inside the 32-bit address space, including areas that reach its last address *)
+Theorem C04_T_address_in_area :
+  forall (a : area) (e : entry) (addr n : N),
+         area_in_space a ->
+         addr < SPACE -> eval (envC a e addr n) tabsC c_ra_addr_is_part_of = b2z (addr_in_area a addr).
+Proof. exact (@C_ra_addr_is_part_of). Qed.
+Print Assumptions C04_T_address_in_area.
+
+(* ... and its test that a register located in an area lies wholly inside it is the comparison of the (unrepresentable) end addresses that the model makes *)
+Theorem C04_T_register_fits_area :
+  forall (a : area) (e : entry) (addr n : N),
+         area_in_space a ->
+         addr_in_area a (e_addr e) = true ->
+         eval (envC a e addr n) tabsC c_ra_reg_fits_into = b2z (e_addr e + tsize (e_type e) <=? a_base a + a_size a).
+Proof. exact (@C_ra_reg_fits_into). Qed.
+Print Assumptions C04_T_register_fits_area.
+
+(* the pre-repair form of the membership test (end address computed in 32 bits) disagrees with the model on the area 0xfffffff0+16, where the repaired one agrees: defect 36 *)
+Theorem C04_T_end_address_form_refuted :
+  exists base size addr : Z,
+           (0 <= base < two32)%Z /\
+           (0 <= size)%Z /\
+           (base + size <= two32)%Z /\
+           (0 <= addr < two32)%Z /\
+           env_top "a.base" = base /\
+           env_top "a.size" = size /\
+           env_top "addr" = addr /\
+           eval env_top (fun _ : string => []) old_ra_addr_is_part_of <>
+           b2z ((base <=? addr)%Z && (addr <? base + size)%Z) /\
+           eval env_top (fun _ : string => []) c_ra_addr_is_part_of =
+           b2z ((base <=? addr)%Z && (addr <? base + size)%Z).
+Proof. exact (@old_end_address_form_refuted). Qed.
+Print Assumptions C04_T_end_address_form_refuted.
 
 (* a failed initialisation leaves the table uninitialised *)
 Theorem C04_failure_uninitialised :
